@@ -62,3 +62,98 @@ pub fn ref_mint(tx: &Transaction, cdh: &CoinDataHeight, header_at_coin_height: &
     let real = reward_real(speed, prev_speed, d, is910);
     Some((speed, dosc_to_erg(apply_height, &real)))
 }
+
+// ---------------------------------------------------------------------------------------------------------------
+// A proof nobody worked for (finding F23).
+//
+// MelPoW is Cohen-Pietrzak's proof of sequential work: label every node of a depth-d graph (2^d sequential hashes),
+// commit to the labelling with the root label, and open the 200 challenged leaves together with the siblings on
+// their paths. melpow 0.1.2's verifier (a) derives the 200 challenged leaves from the puzzle alone, so a prover knows
+// them before labelling anything, and (b) recomputes the path to the root for every challenge but then compares the
+// committed root with *itself*, so the openings are never tied to the commitment. What is left is: "every challenged
+// leaf's label is the hash of the labels the proof lists for its parents" - which holds for labels made up on the
+// spot. `forge` writes such a proof with one hash per challenged leaf. It is written from the paper and the wire
+// format (8 bytes node id = length << 56 | path bits, 32 bytes label), not by calling into melpow.
+pub struct Forged {
+    pub bytes: Vec<u8>,
+    /// evaluations of the MelPoW hash function spent (an honest prover spends 2^difficulty, one after the other)
+    pub hash_calls: u64,
+}
+
+fn node_id(bv: u64, len: usize) -> [u8; 8] {
+    (((len as u64) << 56) | bv).to_be_bytes()
+}
+
+pub fn forge(puzzle: &[u8], d: usize, tip910: bool) -> Forged {
+    assert!((1..=56).contains(&d));
+    let h = |acc: &[u8], key: &[u8]| -> [u8; 32] {
+        let v = if tip910 { Tip910H.hash(acc, key) } else { LegacyH.hash(acc, key) };
+        let mut o = [0u8; 32];
+        o.copy_from_slice(&v);
+        o
+    };
+    let chi = tmelcrypt::hash_keyed(b"chi", puzzle).0;
+    let mask = |n: usize| -> u64 { (1u64 << n) - 1 };
+    // the challenged leaves
+    let mut gammas: Vec<u64> = (0..200)
+        .map(|i| {
+            let seed = tmelcrypt::hash_keyed(format!("gamma-{}", i).as_bytes(), puzzle).0;
+            let g = u64::from_le_bytes(seed[0..8].try_into().unwrap());
+            let shift = 64 - d;
+            ((g >> shift) << shift).reverse_bits()
+        })
+        .collect();
+    // left to right: a leaf's parents lie to its left
+    gammas.sort_by_key(|bv| bv.reverse_bits() >> (64 - d));
+    gammas.dedup();
+    let mut labels: std::collections::HashMap<(u64, usize), [u8; 32]> = Default::default();
+    let filler = |bv: u64, len: usize| *blake3::hash(&[&b"made up"[..], &node_id(bv, len)].concat()).as_bytes();
+    labels.insert((0, 0), filler(0, 0));
+    for g in &gammas {
+        for idx in 0..d {
+            let bit = (g >> idx) & 1;
+            let sib = ((g & mask(idx)) | ((1 - bit) << idx), idx + 1);
+            labels.entry(sib).or_insert_with(|| filler(sib.0, sib.1));
+        }
+    }
+    let mut calls = 0;
+    for g in &gammas {
+        let mut acc = vec![];
+        let mut add = |b: &[u8]| {
+            acc.extend_from_slice(&(b.len() as u64).to_be_bytes());
+            acc.extend_from_slice(b);
+        };
+        add(&node_id(*g, d));
+        for idx in 0..d {
+            if (g >> idx) & 1 == 1 {
+                let parent = (g & mask(idx), idx + 1);
+                let l = labels[&parent];
+                add(&l);
+            }
+        }
+        labels.insert((*g, d), h(&acc, &chi));
+        calls += 1;
+    }
+    let mut bytes = Vec::with_capacity(labels.len() * 40);
+    let mut keys: Vec<_> = labels.keys().copied().collect();
+    keys.sort();
+    for k in keys {
+        bytes.extend_from_slice(&node_id(k.0, k.1));
+        bytes.extend_from_slice(&labels[&k]);
+    }
+    Forged { bytes, hash_calls: calls }
+}
+
+/// The labels the work graph really has at the nodes an honest proof lists (2^d hashes: small d only), as wire units.
+pub fn honest_units(puzzle: &[u8], d: usize, tip910: bool) -> std::collections::HashMap<[u8; 8], [u8; 32]> {
+    let b = if tip910 { Proof::generate(puzzle, d, Tip910H).to_bytes() } else { Proof::generate(puzzle, d, LegacyH).to_bytes() };
+    b.chunks(40)
+        .map(|u| {
+            let mut k = [0u8; 8];
+            k.copy_from_slice(&u[..8]);
+            let mut l = [0u8; 32];
+            l.copy_from_slice(&u[8..]);
+            (k, l)
+        })
+        .collect()
+}
